@@ -996,9 +996,11 @@ mod exp {
         }
     }
 
-    fn sorted<T: Clone, K: Ord>(v: &[T], k: impl Fn(&T) -> K) -> Vec<T> {
+    /// sorted and with equal duplicates collapsed (the canonical envelopes absorb an equal duplicate record)
+    fn sorted<T: Clone + PartialEq, K: Ord>(v: &[T], k: impl Fn(&T) -> K) -> Vec<T> {
         let mut v = v.to_vec();
         v.sort_by_key(k);
+        v.dedup();
         v
     }
 
